@@ -207,12 +207,26 @@ pub fn check_generator(
     }
 }
 
-fn case_bundle_additions(ctx: &Ctx, rep: &mut Report, sb: &SpendBundle, witness: &dyn Fn() -> Value) {
-    // "valid spend bundle" = passes mempool-mode validation
-    let flags = MEMPOOL_MODE | ConsensusFlags::DONT_VALIDATE_SIGNATURE;
-    let Ok((o, _)) = run_sb(ctx, sb, 11_000_000_000, flags) else {
-        rep.count("skipped:bundle-not-mempool-valid");
-        return;
+fn case_bundle_additions(ctx: &Ctx, rep: &mut Report, sb: &SpendBundle, pair_opcode: bool, witness: &dyn Fn() -> Value) {
+    // "valid spend bundle" = passes mempool-mode validation; a bundle that only passes consensus-mode
+    // validation (unknown conditions allowed) is judged too unless it holds a condition with a pair in the
+    // opcode position, which the helper refuses by design
+    let strict = MEMPOOL_MODE | ConsensusFlags::DONT_VALIDATE_SIGNATURE;
+    let o = match run_sb(ctx, sb, 11_000_000_000, strict) {
+        Ok((o, _)) => {
+            rep.count("bundle-additions-checked:mempool-valid");
+            o
+        }
+        Err(_) => match run_sb(ctx, sb, 11_000_000_000, ConsensusFlags::DONT_VALIDATE_SIGNATURE) {
+            Ok((o, _)) if !pair_opcode => {
+                rep.count("bundle-additions-checked:consensus-valid-only");
+                o
+            }
+            _ => {
+                rep.count("skipped:bundle-not-valid");
+                return;
+            }
+        },
     };
     rep.eval();
     rep.count("bundle-additions-checked");
@@ -254,17 +268,27 @@ pub fn run(args: &Args, rep: &mut Report) {
             rep.cell(&format!("recorded:{name}"));
             let g = solution_generator(sb.coin_spends.iter().map(|cs| (cs.coin, cs.puzzle_reveal.as_slice(), cs.solution.as_slice()))).expect("generator");
             check_generator(&ctx, rep, &g, &[], ConsensusFlags::DONT_VALIDATE_SIGNATURE, &ctx.consts, &|| json!({"recorded_bundle": name}));
-            case_bundle_additions(&ctx, rep, sb, &|| json!({"recorded_bundle": name}));
+            case_bundle_additions(&ctx, rep, sb, false, &|| json!({"recorded_bundle": name}));
             return;
         }
-        let b = gen_bundle(rng, &params);
-        let form = rng.below(5);
+        let mut b = gen_bundle(rng, &params);
+        let form = rng.below(6);
+        let mut refs: Vec<Vec<u8>> = vec![];
         let program = match form {
             0 | 1 => quoted_generator(&b).serialize(),
             2 => serialize_backrefs(&quoted_generator(&b)),
             3 => computed_program(&generator_value(&b), rng, 0).serialize(),
-            _ => procedural_generator(&b).serialize(),
+            4 => procedural_generator(&b).serialize(),
+            _ => {
+                // a generator that reads its block references (order-sensitively): the trusted helpers set
+                // the generator's environment up themselves
+                let (p, r) = crate::c07::refs_reader_program(&mut b, rng);
+                refs = r;
+                rep.count("generators-reading-block-refs");
+                p.serialize()
+            }
         };
+        let b = b;
         let mut flags = ConsensusFlags::DONT_VALIDATE_SIGNATURE;
         if rng.bool() {
             flags |= ConsensusFlags::COST_CONDITIONS;
@@ -278,11 +302,12 @@ pub fn run(args: &Args, rep: &mut Report) {
                 rep.cell(&format!("memo-shape:{}:{form}", &t[5..]));
             }
         }
-        let w = || json!({"generator": hx(&program), "flags": format!("{flags:?}"), "tags": b.tags});
-        check_generator(&ctx, rep, &program, &[], flags, &ctx.consts, &w);
+        let w = || json!({"generator": hx(&program), "refs": refs.iter().map(|r| hx(r)).collect::<Vec<_>>(), "flags": format!("{flags:?}"), "tags": b.tags});
+        check_generator(&ctx, rep, &program, &refs, flags, &ctx.consts, &w);
         if b.as_spendbundle_ok() && rng.chance(1, 3) {
             let sb = spend_bundle(&b, &Signature::default());
-            case_bundle_additions(&ctx, rep, &sb, &|| bundle_json(&b));
+            let pair_opcode = b.spends.iter().any(|s| s.conds.iter().any(|c| c.first().is_some_and(|op| op.as_atom().is_none())));
+            case_bundle_additions(&ctx, rep, &sb, pair_opcode, &|| bundle_json(&b));
         }
         if rep.want_sample() {
             rep.sample(w());
